@@ -57,6 +57,9 @@ func checkPut(p *Prog, r *Report, rule, construct string, f *ssa.Function, ps []
 
 func runC02(p *Prog, r *Report, tier string) {
 	ent := modPath + "/pkg/entities"
+	// imported from C16: a template record's specifiers appended before PrepareRecord survive it (a template message that
+	// declares N fields and carries none is not parseable)
+	checkPrepareKeepsBody(p, r, "R-RFC.prepare-keeps-body")
 	// constants
 	for name, want := range map[string]int64{"MsgHeaderLength": rfcMsgHeaderLen, "SetHeaderLen": rfcSetHeaderLen, "TemplateSetID": rfcTemplateSetID, "MaxSocketMsgSize": 65535, "VariableLength": 65535} {
 		v, ok := pkgConst(p, ent, name)
